@@ -135,8 +135,8 @@ impl HybridTimestamp {
 
     pub fn increment(self) -> Self {
         let timestamp = Timestamp::now();
-        if timestamp == self.0 {
-            Self(timestamp, self.1.increment())
+        if timestamp <= self.0 {
+            Self(self.0, self.1.increment())
         } else {
             Self(timestamp, LamportTimestamp::default())
         }
